@@ -109,7 +109,23 @@ CHECKS = {
 PENDING = {}
 ALL = ["C%02d" % i for i in range(1, 21)]
 
+def round2_notes():
+    """The 'as built after round 2' paragraph of each property section of DESIGN.md (single source of truth)."""
+    import re
+    txt = open(os.path.join(ROOT, "DESIGN.md")).read()
+    out = {}
+    for m in re.finditer(r"^### (C\d\d) — .*?$", txt, re.M):
+        pid = m.group(1)
+        rest = txt[m.end():]
+        nxt = re.search(r"^##+ ", rest, re.M)
+        sec = rest[:nxt.start()] if nxt else rest
+        b = re.search(r"\*As built after round 2[^*]*\*\s*(.*?)\n\n", sec, re.S)
+        if b:
+            out[pid] = " ".join(b.group(1).split())
+    return out
+
 def main():
+    r2 = round2_notes()
     checks = []
     for pid in ALL:
         if pid not in CHECKS: continue
@@ -121,7 +137,7 @@ def main():
             "evidence_file": f"/verif/evidence/{pid}.json",
             "replay_cmd_template": "./check replay {path}",
             "engine": c["engine"],
-            "level_claimed": {"category": c.get("category", "model_checking"), "text": c["text"], "design_ref": "DESIGN.md " + c["design"]},
+            "level_claimed": {"category": c.get("category", "model_checking"), "text": c["text"] + (" Extended in round 2: " + r2[pid] if pid in r2 else ""), "design_ref": "DESIGN.md " + c["design"]},
             "level_note": c["note"],
             "technique": c["technique"],
         })
